@@ -429,7 +429,7 @@ def _redeclared_globals(Context):
 
 PROBES_C12 = [
     ("method-value-kept-across-evaluations", _kept_method, "1,2,3|caught 5"),
-    ("Function-body-may-end-in-a-line-comment", "[new Function('return 1 // done')(), new Function('a // first', 'b', 'return a + b // sum')(1, 2), new Function('return 7')(), (function () { try { new Function('('); return 'accepted' } catch (e) { return e.name } })()].join()", "1,3,7,SyntaxError"),
+    ("Function-body-may-end-in-a-line-comment", "[new Function('return 1 // done')(), new Function('a', 'b // second', 'return a + b // sum')(1, 2), new Function('return 7')(), (function () { try { new Function('('); return 'accepted' } catch (e) { return e.name } })()].join()", "1,3,7,SyntaxError"),
     ("redeclared-globals-keep-their-values", _redeclared_globals, [41, 5, 1, 41, 1, "function", 41, 5, 41, 5, "undefinedundefined"]),
 ]
 groups.register_probes("C12", PROBES_C12)
